@@ -103,10 +103,26 @@ def impl_lookup(length, circular, genes, query, wo):
     try:
         record = mk_record(length, circular)
         ids = {}
+        # the answer is a function of the genes in the record, whatever was asked of the record while it was built: between
+        # the insertions the SAME look-up, a look-up elsewhere and get_cds_features() are called (results discarded); the
+        # choices are a function of the case, so a replay repeats them
+        import random
+        rnd = random.Random(length * 7919 + len(genes) * 104729 + sum(s + 3 * e for _g, parts, _c in genes for s, e, _ in parts))
         for gid, parts, cores in genes:
             cds = mk_cds(gid, parts, cores)
             ids[id(cds)] = gid
             record.add_cds_feature(cds)
+            for _ in range(rnd.choice([0, 0, 1, 2])):
+                what = rnd.random()
+                try:
+                    if what < 0.45:
+                        record.get_cds_features_within_location(mk_location(query), with_overlapping=wo)
+                    elif what < 0.6:
+                        record.get_cds_features_within_location(mk_location(query), with_overlapping=not wo)
+                    else:
+                        record.get_cds_features()
+                except Exception:  # pylint: disable=broad-except
+                    pass        # a look-up that raises on the unfinished record is reported for the finished one below
         found = record.get_cds_features_within_location(mk_location(query), with_overlapping=wo)
         return [0, len(found)] + [ids[id(f)] for f in found]
     except Exception as exc:  # pylint: disable=broad-except
